@@ -151,7 +151,9 @@ CHECKS.update(
                 "events handled at their own time and in order, start >= chosen time; EventQueue cross-check against a reference model. Main loop (Simulator.simulate, loop invariant: valid heap, "
                 "nothing queued in the past, clock monotone): every step is min(smallest remaining time of a resident task, time to the earliest queued event) - obligations "
                 "loop.step_le_every_remaining_time, loop.step_le_time_to_next_event, loop.step_reaches_earliest_event (peek is an earliest event by the inductive lemma heap.root_earliest) - "
-                "and an event is handed to its handler only when the clock equals its time (call:Simulator.__handle_event.event_at_its_time)."
+                "and an event is handed to its handler only when the clock equals its time (call:Simulator.__handle_event.event_at_its_time). "
+                "Simulator.__handle_scheduler_finish rejects (ValueError) every placed decision timed before the end of the scheduler invocation, so no task is planned into the past; applying a decision "
+                "(__create_events_from_task_placement) makes the task record exactly that decision (runtime of the chosen strategy) and its pending event carry it at the chosen time, also when an earlier decision is revised."
             ),
             note=BASE_NOTE + " Specific: the abstract contract of WorkerPool.step used by __step/simulate is verified against the body (WorkerPool.step#body) under the pool invariant; floats as reals in fuzz; the exact upper bound of fuzz is a known finding (rounding).",
             design_ref="DESIGN.md section 6 (C03)",
